@@ -749,26 +749,45 @@ Section Rec.
         end
     end.
 
-  (* forward pass of an assignment through accessors: what is read, and what to write back *)
+  (* an assignment through accessors, phase 1: the index expressions in order, each extended to
+     usize and checked against the bounds, BEFORE the target is read *)
+  Fixpoint assign_indexes (m : meta) (accs : list accessor) (E : cenv) (acc_rev : list (list Wt))
+    : M (list (list Wt) * cenv) :=
+    match accs with
+    | [] => ret (rev acc_rev, E)
+    | AIdx arr_ty idx :: r =>
+        do* (_, num_elems) := lift_res (array_size P arr_ty) in
+        do* (iw, E1) := rec_e idx E in
+        do* iw' := m_extend iw (TInt false 32) USZ in
+        do* _ := bounds_check iw' num_elems m in
+        assign_indexes m r E1 (iw' :: acc_rev)
+    | _ :: r => assign_indexes m r E acc_rev
+    end.
+
+  (* phase 2: what is read through the accessors, and what to write back *)
   Definition acc_item := (list Wt * nat * nat * option (list Wt))%type.
 
-  Fixpoint assign_forward (m : meta) (accs : list accessor) (coll : list Wt) (E : cenv)
-      (acc : list acc_item) : M (list acc_item * cenv) :=
+  Fixpoint assign_forward (accs : list accessor) (coll : list Wt) (idxs : list (list Wt))
+      (acc : list acc_item) : M (list acc_item) :=
     match accs with
-    | [] => ret (acc, E)
-    | AIdx arr_ty idx :: r =>
-        do* (eb, num_elems) := lift_res (array_size P arr_ty) in
-        do* (iw, E1) := rec_e idx E in
-        do* (coll', iw') := array_read coll iw eb num_elems m in
-        assign_forward m r coll' E1 ((coll, eb, O, Some iw') :: acc)
+    | [] => ret acc
+    | AIdx arr_ty _ :: r =>
+        do* (eb, _) := lift_res (array_size P arr_ty) in
+        match idxs with
+        | [] => crash
+        | iw :: ir =>
+            do* arr' := index_layers (rev iw) coll eb in
+            let coll' := match arr' with [] => repeat wF eb | _ => arr' end in
+            assign_forward r coll' ir ((coll, eb, O, Some iw) :: acc)
+        end
     | ATup tup_ty i :: r =>
         do* (wb, wi) := lift_res (tuple_offsets P tup_ty i) in
         do* coll' := lift_res (slice coll wb wi) in
-        assign_forward m r coll' E ((coll, wb, wi, None) :: acc)
+        assign_forward r coll' idxs ((coll, wb, wi, None) :: acc)
     | AFld st_ty fld :: r =>
         do* (wb, wi) := lift_res (struct_offsets P st_ty fld) in
         do* coll' := lift_res (slice coll wb wi) in
-        assign_forward m r coll' E ((coll, wb, wi, None) :: acc)
+        assign_forward r coll' idxs ((coll, wb, wi, None) :: acc)
     end.
 
   (* backward pass (accessed.into_iter().rev() = the accumulated list as it is) *)
@@ -1013,8 +1032,9 @@ Section Rec.
           ret ([], E2)
       | SAssign x accs e =>
           do* (value, E1) := rec_e e E in
-          do* coll := (match env_get E1 x with Some v => ret v | None => crash end) in
-          do* (accessed, E2) := assign_forward m accs coll E1 [] in
+          do* (idxs, E2) := assign_indexes m accs E1 [] in
+          do* coll := (match env_get E2 x with Some v => ret v | None => crash end) in
+          do* accessed := assign_forward accs coll idxs [] in
           do* value' := assign_backward m accessed value in
           do* E3 := lift_res (env_assign E2 x value') in
           ret ([], E3)
